@@ -7,6 +7,7 @@ Definition MAX_BELL : nat := 16.
 
 Definition row := list nat.
 Definition places := list nat.
+Definition row_eqb : row -> row -> bool := list_eqb Nat.eqb.
 
 (* new_row[i-1], new_row[i] = new_row[i], new_row[i-1]   (i >= 1); IndexError when i >= len *)
 Fixpoint swap_at (j : nat) (r : row) : option row :=
